@@ -370,10 +370,15 @@ def main(argv=None):
         'wall_s': round(wall, 2), 'violations': len(new),
     }
     if not args.replay:
-        os.makedirs(os.path.join(VERIF, 'evidence'), exist_ok=True)
-        tmp = os.path.join(VERIF, 'evidence', prop + '.json.tmp%d' % os.getpid())
+        # evidence of runs against a scratch copy (self-test, seeded faults)
+        # must not overwrite the evidence of /repo itself
+        evdir = os.environ.get('VF_EVIDENCE_DIR') or os.path.join(
+            VERIF, 'evidence' if os.path.realpath(build.repo()) ==
+            os.path.realpath('/repo') else 'out/evidence-scratch')
+        os.makedirs(evdir, exist_ok=True)
+        tmp = os.path.join(evdir, prop + '.json.tmp%d' % os.getpid())
         json.dump(ev, open(tmp, 'w'), indent=1, sort_keys=True)
-        os.rename(tmp, os.path.join(VERIF, 'evidence', prop + '.json'))
+        os.rename(tmp, os.path.join(evdir, prop + '.json'))
     for ln in lines:
         print(ln)
     if len(seen_keys) > 12:
